@@ -388,3 +388,68 @@ for _n, _e in [('broadcast_gradients', ()), ('broadcast_inverses', ()), ('inv_wo
                ('is_grad_worker', ('layer',)), ('src_grad_worker', ('layer',)), ('get_layers', ()),
                ('get_factors', ('layer',)), ('factor_group', ('layer', 'factor'))]:
     _kaisa_method(_n, _e)
+
+
+# ----------------------------------------------------------------------------- BaseKFACPreconditioner
+def tiny_model(rng):
+    import torch
+    layers = []
+    kind = rng.randrange(3)
+    if kind == 0:
+        layers = [torch.nn.Linear(3, 4, bias=rng.random() < 0.5), torch.nn.ReLU(), torch.nn.Linear(4, 2, bias=rng.random() < 0.5)]
+    elif kind == 1:
+        layers = [torch.nn.Conv2d(1, 2, 3, bias=rng.random() < 0.5), torch.nn.Flatten(), torch.nn.Linear(2 * 2 * 2, 2)]
+    else:
+        layers = [torch.nn.Linear(2, 2)]
+    return torch.nn.Sequential(*layers)
+
+
+def real_layers(rng, model=None):
+    from kfac.distributed import TorchDistributedCommunicator
+    from kfac.layers.eigen import KFACEigenLayer
+    from kfac.layers.inverse import KFACInverseLayer
+    from kfac.layers.register import register_modules
+    from kfac.assignment import KAISAAssignment
+    model = model or tiny_model(rng)
+    tdc = TorchDistributedCommunicator()
+    lt = rng.choice([KFACEigenLayer, KFACInverseLayer])
+    layers = register_modules(model, lt, skip_layers=[], tdc=tdc)
+    work = {name: {'A': 1.0, 'G': 1.0} for name, _ in layers.values()}
+    assignment = KAISAAssignment(work, local_rank=0, world_size=1, grad_worker_fraction=1.0,
+                                 group_func=lambda r: None)
+    return model, layers, assignment, tdc
+
+
+class _HookCounter:
+    """Expose fwd_hooks / bwd_hooks ghost counters of a torch module for run-time contracts."""
+
+
+def _install_hook_counters():
+    import torch
+    M = torch.nn.Module
+    if not hasattr(M, 'fwd_hooks'):
+        M.fwd_hooks = property(lambda self: len(self._forward_pre_hooks))
+        M.bwd_hooks = property(lambda self: len(self._backward_hooks))
+
+
+@gen('kfac.base_preconditioner:BaseKFACPreconditioner.__init__')
+def _gen_base_init(rng, model):
+    from kfac.base_preconditioner import BaseKFACPreconditioner
+    _install_hook_counters()
+    _, layers, assignment, tdc = real_layers(rng)
+
+    def hv(name):
+        r = rng.random()
+        if r < 0.2:
+            return gen_callable(rng)
+        if name == 'kl_clip' and r < 0.45:
+            return None
+        if name in ('factor_update_steps', 'inv_update_steps'):
+            return rng.choice([1, 2, 3, 10, 0, -1])
+        return rng.choice([0.001, 0.95, 1.0, 0.1, 0.0, -0.5, 1, 2, 1.5])
+    kw = {h: hv(h) for h in HYPERS}
+    kw.update(accumulation_steps=rng.choice([1, 2, 5, 0, -1]), update_factors_in_hook=rng.random() < 0.5,
+              defaults=None, loglevel=10)
+    obj = BaseKFACPreconditioner.__new__(BaseKFACPreconditioner)
+    params = dict(self=obj, layers=layers, assignment=assignment, tdc=tdc, **kw)
+    return Case(BaseKFACPreconditioner.__init__, params, [obj, layers], dict(assignment=assignment, tdc=tdc, **kw))
